@@ -37,7 +37,11 @@ import (
 	"com.tuntun.rangers/node/src/consensus/logical"
 	gc "com.tuntun.rangers/node/src/consensus/logical/group_create"
 	"com.tuntun.rangers/node/src/consensus/model"
+	cnet "com.tuntun.rangers/node/src/consensus/net"
+	middleware_pb "com.tuntun.rangers/node/src/middleware/pb"
 	"com.tuntun.rangers/node/src/middleware/types"
+	"crypto/sha256"
+	"github.com/gogo/protobuf/proto"
 	"verif/harness/hx"
 )
 
@@ -298,10 +302,11 @@ const (
 	oExisted
 	oFinished
 	oClosed
+	oRejected // CanAccept refused the message id (processed / stored earlier)
 	oOther
 )
 
-var oNames = []string{"no-key", "hash-mismatch", "bad-sign", "rand-nil", "bad-rand", "dup", "added", "recovered", "existed", "finished", "closed", "other"}
+var oNames = []string{"no-key", "hash-mismatch", "bad-sign", "rand-nil", "bad-rand", "dup", "added", "recovered", "existed", "finished", "closed", "rejected-by-id", "other"}
 
 const (
 	tNone = iota
@@ -343,6 +348,8 @@ func classify(st logical.VerifR1Step) (int, int) {
 		return oOther, term
 	case has(l, "finished party"):
 		return oFinished, term
+	case has(l, "working party") && !has(l, "round1 update"):
+		return oRejected, term
 	case has(l, "block has generated") && !has(l, "round1 add piece"):
 		return oExisted, term
 	case has(l, "GetMemberSignPubKey not ok"):
@@ -539,20 +546,14 @@ func main() {
 		for i := range ids {
 			ids[i] = mkID(g.ids[i])
 		}
-		// the node's record of the group: sign public keys of the members it has heard from
+		// the node's record of the group: sign public keys of the members it has heard from.  In a third of
+		// the runs the record is filled the way the node fills it: SignPubKeyMessages (built as
+		// handleSharePieceMessage builds them: signed with the in-group sign key) handled by
+		// group_create.OnMessageSignPK; the first key received for an id stays.  Part of those runs
+		// register a key the way a faulty sender can: for an id outside the group, or for a member's id
+		// before that member's own message arrives.
 		known := make([]bool, n)
 		jg := model.NewJoindGroupInfo(mkSec(g.keys[0]), g.gpk, hashOf(r.Bytes(32)))
-		unknownMember := -1
-		if r.Intn(5) == 0 {
-			unknownMember = 1 + r.Intn(n-1)
-		}
-		for j := 0; j < n; j++ {
-			if j == unknownMember {
-				continue
-			}
-			known[j] = true
-			jg.AddMemberSignPK(ids[j], *groupsig.GeneratePubkey(mkSec(g.keys[j])))
-		}
 		storage := access.VerifR1NewJoinedGroupStorage(jg)
 		netStub := &logical.VerifR1Net{}
 		self := model.SelfMinerInfo{}
@@ -560,6 +561,83 @@ func main() {
 		self.SecKey = mkSec(randScalar(r))
 		gc.VerifR1Install(storage, self, netStub)
 		gc.VerifR1ForgetKeyRequests()
+		outsiderID := distinctIDs(r, 1)[0]
+		outsiderKey := randScalar(r)
+		squatKey := randScalar(r)
+		unknownMember := -1
+		if r.Intn(5) == 0 {
+			unknownMember = 1 + r.Intn(n-1)
+		}
+		viaMsg := r.Intn(3) == 0
+		atk, squatted := "", -1
+		if viaMsg {
+			switch r.Intn(3) {
+			case 0:
+				atk = "non-member"
+			case 1:
+				atk = "squatted-id"
+				squatted = 1 + r.Intn(n-1)
+				if squatted == unknownMember {
+					unknownMember = -1
+				}
+			}
+		}
+		register := func(id, sk *big.Int) {
+			pk := *groupsig.GeneratePubkey(mkSec(sk))
+			if !viaMsg {
+				jg.AddMemberSignPK(mkID(id), pk)
+				return
+			}
+			m := &model.SignPubKeyMessage{GroupID: gid, SignPK: pk, GroupHash: jg.GroupHash, GroupMemberNum: int32(n)}
+			si, _ := model.NewSignInfo(mkSec(sk), mkID(id), m)
+			m.SignInfo = si
+			gc.GroupCreateProcessor.OnMessageSignPK(m)
+		}
+		if atk == "squatted-id" {
+			register(g.ids[squatted], squatKey)
+		}
+		for j := 0; j < n; j++ {
+			if j != unknownMember {
+				register(g.ids[j], g.keys[j])
+			}
+		}
+		if atk == "non-member" {
+			register(outsiderID, outsiderKey)
+		}
+		// read the table back from the node's record
+		type regEntry struct{ id, sk *big.Int }
+		var table []regEntry
+		{
+			cands := []regEntry{{outsiderID, outsiderKey}}
+			for j := 0; j < n; j++ {
+				cands = append(cands, regEntry{g.ids[j], g.keys[j]})
+			}
+			if squatted >= 0 {
+				cands = append(cands, regEntry{g.ids[squatted], squatKey})
+			}
+			pks := jg.GetMemberPKs()
+			found := 0
+			for _, c := range cands {
+				if pk, ok := pks[mkID(c.id).GetHexString()]; ok && pk.IsEqual(*groupsig.GeneratePubkey(mkSec(c.sk))) {
+					table = append(table, c)
+					found++
+				}
+			}
+			if found != len(pks) {
+				res.Violate("C15/harness:member-table", fmt.Sprintf("%d keys in the node's record, %d attributed", len(pks), found), nil)
+			}
+			for j := 0; j < n; j++ {
+				pk, ok := pks[ids[j].GetHexString()]
+				known[j] = ok && pk.IsEqual(*groupsig.GeneratePubkey(mkSec(g.keys[j])))
+			}
+		}
+		// keys of violations that are consequences of a key registered by a faulty sender
+		vkey := func(k string) string {
+			if atk != "" {
+				return "C15/registered-key:" + atk + ":" + strings.TrimPrefix(k, "C15/")
+			}
+			return k
+		}
 
 		gInfo := model.NewGroupInfo(gid, g.gpk, &model.GroupInitInfo{GroupHeader: &types.GroupHeader{}, GroupMembers: ids})
 		bh := &types.BlockHeader{Hash: bhHash, Height: 10, GroupId: gid.Serialize()}
@@ -576,8 +654,6 @@ func main() {
 			m := vmsg{kind: kind, sender: g.ids[j], member: j, dh: iBH, dhash: bhHash, filed: bhHash, sig: honestShare(j), rsig: honestRand(j)}
 			return m
 		}
-		outsiderID := distinctIDs(r, 1)[0]
-		outsiderKey := randScalar(r)
 		byz := func(j int) vmsg {
 			m := mk("", j)
 			o := r.Intn(len(others))
@@ -585,6 +661,10 @@ func main() {
 			case 0, 1, 2: // signs another hash and says so; filed under the block hash
 				m.kind = "other-hash-claimed"
 				m.dh, m.dhash = others[o], otherHash[o]
+				if r.Intn(3) == 0 { // ... and the whole message is filed under that hash (cvm.BlockHash)
+					m.kind = "other-hash-claimed-and-filed"
+					m.filed = otherHash[o]
+				}
 				m.sig = valPoint(groupsig.Sign(mkSec(g.keys[j]), otherHash[o].Bytes()), single(others[o], g.keys[j]))
 			case 3: // signs another hash but claims the block hash
 				m.kind = "other-hash-hidden"
@@ -677,6 +757,22 @@ func main() {
 		for i := 0; i < nByz; i++ {
 			msgs = append(msgs, byz(r.Intn(n)))
 		}
+		if atk == "non-member" {
+			m := mk("outsider", 0)
+			m.member, m.sender = -1, outsiderID
+			m.sig = valPoint(groupsig.Sign(mkSec(outsiderKey), bhHash.Bytes()), single(iBH, outsiderKey))
+			m.rsig = valPoint(groupsig.Sign(mkSec(outsiderKey), preRandom), single(prIdx, outsiderKey))
+			msgs = append(msgs, m)
+		}
+		if atk == "squatted-id" {
+			m := mk("squatter", squatted)
+			m.sig = valPoint(groupsig.Sign(mkSec(squatKey), bhHash.Bytes()), single(iBH, squatKey))
+			m.rsig = valPoint(groupsig.Sign(mkSec(squatKey), preRandom), single(prIdx, squatKey))
+			msgs = append(msgs, m)
+			h := mk("honest", squatted)
+			h.honest = true
+			msgs = append(msgs, h)
+		}
 		// duplicates of what is already in the list
 		for i, nd := 0, r.Intn(3); i < nd && len(msgs) > 0; i++ {
 			d := msgs[r.Intn(len(msgs))]
@@ -703,10 +799,68 @@ func main() {
 				nFut = k + 2
 			}
 		}
+		// every message travels as the node sends it: protobuf bytes decoded by
+		// net.UnMarshalConsensusVerifyMessage, so the message id is the decoder's.  (The decoder cannot
+		// return a message whose share signature does not parse - it dereferences nil; such messages
+		// are built in process with the id formula of the decoder.)
+		encode := func(m vmsg) []byte {
+			ver := int32(common.ConsensusVersion)
+			pbm := &middleware_pb.ConsensusVerifyMessage{BlockHash: m.filed.Bytes(), RandomSign: m.rsig.sig.Serialize(),
+				Sign: &middleware_pb.SignData{DataHash: m.dhash.Bytes(), DataSign: m.sig.sig.Serialize(), SignMember: mkID(m.sender).Serialize(), Version: &ver}}
+			bs, err := proto.Marshal(pbm)
+			if err != nil {
+				panic(err)
+			}
+			return bs
+		}
+		decode := func(bs []byte) (cvm *model.ConsensusVerifyMessage) {
+			defer func() {
+				if p := recover(); p != nil {
+					cvm = nil
+				}
+			}()
+			c, err := cnet.UnMarshalConsensusVerifyMessage(bs)
+			if err != nil {
+				return nil
+			}
+			return c
+		}
+		// byte-identical copies of a stored message: the party keeps one per id and refuses the id
+		// afterwards (they carry nothing new); the runs deliver each stored message once
+		{
+			seenFut := map[string]bool{}
+			var kept []vmsg
+			nf := 0
+			for i, m := range msgs {
+				key := string(encode(m))
+				if i < nFut {
+					if seenFut[key] {
+						continue
+					}
+					seenFut[key] = true
+					nf++
+				} else if seenFut[key] {
+					continue
+				}
+				kept = append(kept, m)
+			}
+			msgs, nFut = kept, nf
+		}
+		idIndex := map[string]int{}
 		mkCvm := func(i int) *model.ConsensusVerifyMessage {
 			m := msgs[i]
-			return &model.ConsensusVerifyMessage{BlockHash: m.filed, RandomSign: m.rsig.sig, Id: fmt.Sprintf("m%d-%d", run, i),
-				SignInfo: model.MakeSignInfo(m.dhash, m.sig.sig, mkID(m.sender), common.ConsensusVersion)}
+			bs := encode(m)
+			cvm := decode(bs)
+			if cvm == nil {
+				res.Histogram["decoder-cannot-return-message:"+strings.TrimPrefix(m.kind, "dup:")]++
+				h := sha256.Sum256(bs)
+				cvm = &model.ConsensusVerifyMessage{BlockHash: m.filed, RandomSign: m.rsig.sig, Id: common.ToHex(h[:]),
+					SignInfo: model.MakeSignInfo(m.dhash, m.sig.sig, mkID(m.sender), common.ConsensusVersion)}
+			}
+			if _, dup := idIndex[cvm.Id]; !dup {
+				idIndex[cvm.Id] = i
+			}
+			return cvm
 		}
 		var futCvm []*model.ConsensusVerifyMessage
 		for i := 0; i < nFut; i++ {
@@ -735,7 +889,8 @@ func main() {
 			}
 			return map[string]interface{}{"n": n, "k": k, "ids": is, "member_keys": ks, "group_secret": g.gsk.String(), "unknown_member": unknownMember,
 				"block_hash": bhHash.Hex(), "pre_random": hex.EncodeToString(preRandom), "block_exists": existed, "consistent_keys": consistent,
-				"replayed_at_start": nFut, "messages": ml}
+				"replayed_at_start": nFut, "keys_registered_by_message": viaMsg, "faulty_registration": atk,
+				"outsider_id": outsiderID.String(), "squatted_member": squatted, "messages": ml}
 		}
 		// the replay: split the round's log at the "round1 update" lines, which name the message id
 		var futOrder []int
@@ -762,8 +917,7 @@ func main() {
 					flush()
 					cur = -1
 					if p := strings.LastIndex(l.Text, "id: "); p >= 0 {
-						var rr, ii int
-						if _, e := fmt.Sscanf(l.Text[p+4:], "m%d-%d", &rr, &ii); e == nil && rr == run && ii < nFut {
+						if ii, ok := idIndex[strings.TrimSpace(l.Text[p+4:])]; ok && ii < nFut {
 							cur = ii
 						}
 					}
@@ -783,7 +937,7 @@ func main() {
 				closed = true
 			} else {
 				if len(futOrder) != nFut {
-					res.Violate("C15/harness:replay-count", fmt.Sprintf("%d of %d stored messages replayed", len(futOrder), nFut), desc())
+					res.Violate("C15/message-id:stored-messages-collapsed", fmt.Sprintf("%d pairwise different verify messages were stored before the round started but only %d were replayed: different messages share a message id", nFut, len(futOrder)), desc())
 				}
 				st := v.Tick()
 				_, futTerm = classify(st)
@@ -827,6 +981,12 @@ func main() {
 			if has(st.Logs, "recover error") {
 				res.Violate("C15/panic:party-update:"+m.kind, "the party's Update panicked (recovered by the party): "+st.Logs[len(st.Logs)-1].Text[:200], desc())
 			}
+			if m.honest && m.member >= 0 && (oc == oBadSign || oc == oBadRand || oc == oHashMismatch) {
+				res.Violate(vkey("C15/valid-share-rejected"), fmt.Sprintf("message %d: the valid share of member %d was rejected (%s)", i, m.member, oNames[oc]), desc())
+			}
+			if oc == oRejected {
+				res.Violate("C15/message-id:message-refused-unread:"+strings.TrimPrefix(m.kind, "dup:"), fmt.Sprintf("message %d (%s) was refused on its message id without being examined although no identical message had been delivered", i, m.kind), desc())
+			}
 			grew := len(v.GIDs()) > before
 			if !grew && (oc == oAdded || oc == oRecovered) {
 				res.Violate("C15/duplicate-admitted:"+strings.TrimPrefix(m.kind, "dup:"), fmt.Sprintf("message %d (%s) was accepted as a new share (%s) although its sender already had one in the recovery set", i, m.kind, oNames[oc]), desc())
@@ -864,8 +1024,8 @@ func main() {
 		}
 		for _, idHex := range gids {
 			j, ok := memberOf[idHex]
-			if !ok || !known[j] {
-				res.Violate("C15/admitted-non-member", "a share of a sender without a registered sign key is in the recovery set: "+idHex, desc())
+			if !ok {
+				res.Violate(vkey("C15/admitted-non-member"), "a share of a sender that is not a member of the group is in the recovery set: "+idHex, desc())
 				continue
 			}
 			gs, _ := v.GShare(idHex)
@@ -877,7 +1037,7 @@ func main() {
 						cls = strings.TrimPrefix(msgs[ai].kind, "dup:")
 					}
 				}
-				res.Violate("C15/admitted-invalid-share:"+cls, fmt.Sprintf("the recovery set holds a share of member %d that is not its signature on the block hash", j), desc())
+				res.Violate(vkey("C15/admitted-invalid-share:"+cls), fmt.Sprintf("the recovery set holds a share of member %d that is not its signature on the block hash", j), desc())
 			} else if pairChecks < 400 || thorough {
 				pairChecks++
 				if !groupsig.VerifySig(*groupsig.GeneratePubkey(mkSec(g.keys[j])), bhHash.Bytes(), gs) {
@@ -885,7 +1045,7 @@ func main() {
 				}
 			}
 			if !rs.IsEqual(groupsig.Sign(mkSec(g.keys[j]), preRandom)) {
-				res.Violate("C15/admitted-invalid-beacon-share", fmt.Sprintf("the beacon recovery set holds a share of member %d that is not its signature on the previous beacon value", j), desc())
+				res.Violate(vkey("C15/admitted-invalid-beacon-share"), fmt.Sprintf("the beacon recovery set holds a share of member %d that is not its signature on the previous beacon value", j), desc())
 			}
 		}
 		// expected recovered values from the admitted shares (first thr admitted = all admitted)
@@ -914,7 +1074,7 @@ func main() {
 			okG := groupsig.VerifySig(g.gpk, bhHash.Bytes(), *groupsig.DeserializeSign(hs))
 			okR := groupsig.VerifySig(g.gpk, preRandom, *groupsig.DeserializeSign(hr))
 			if consistent && (!okG || !okR) {
-				res.Violate("C15/recovered-does-not-verify", fmt.Sprintf("threshold reached but the recovered block signature (ok=%v) / beacon value (ok=%v) does not verify under the group public key", okG, okR), desc())
+				res.Violate(vkey("C15/recovered-does-not-verify"), fmt.Sprintf("threshold reached but the recovered block signature (ok=%v) / beacon value (ok=%v) does not verify under the group public key", okG, okR), desc())
 			}
 			if (okG && okR) != (finalTerm == tDone) {
 				res.Violate("C15/finalizer-disagrees", fmt.Sprintf("recovered signatures verify=%v/%v but the party ended with %s", okG, okR, tNames[finalTerm]), desc())
@@ -938,15 +1098,13 @@ func main() {
 					cls = strings.TrimPrefix(msgs[ai].kind, "dup:")
 				}
 			}
-			res.Violate("C15/finalisation-blocked:"+cls, fmt.Sprintf("%d >= k=%d members delivered valid shares, yet the block was not generated (party end: %s)", len(hon), k, tNames[finalTerm]), desc())
+			res.Violate(vkey("C15/finalisation-blocked:"+cls), fmt.Sprintf("%d >= k=%d members delivered valid shares, yet the block was not generated (party end: %s)", len(hon), k, tNames[finalTerm]), desc())
 		}
 
 		// ---- model case ----
 		var mem []string
-		for j := 0; j < n; j++ {
-			if known[j] {
-				mem = append(mem, fmt.Sprintf("(%s,%s)", zs(g.ids[j]), zs(g.keys[j])))
-			}
+		for _, t := range table {
+			mem = append(mem, fmt.Sprintf("(%s,%s)", zs(t.id), zs(t.sk)))
 		}
 		var hsl []string
 		for _, h := range b.h {
